@@ -46,6 +46,8 @@ def main():
         lines = [l for l in r.stdout.splitlines() if l.startswith('VIOLATION')]
         obl = [l.strip() for l in r.stdout.splitlines() if l.startswith('  obligation:')]
         verdict = {0: 'MISSED (exit 0)', 1: 'caught', 2: 'undecided (exit 2)', 3: 'checker error (exit 3)'}.get(r.returncode, f'exit {r.returncode}')
+        if r.returncode == 1 and not lines:
+            verdict = 'CRASH (exit 1 without a VIOLATION line)'
         confirmed = any('no-failing-input-found' not in l for l in lines)
         results[d] = {'property': pid, 'verdict': verdict, 'exit': r.returncode, 'violations': len(lines),
                       'replayed_natively': confirmed if lines else None,
